@@ -1236,9 +1236,66 @@ def rule_p14(F):
     return r
 
 
+def rule_p15(F):
+    """A number literal denotes the number its digits spell: between the text-to-number conversion (`parse`, `from_str_radix`) and the
+    `Literal` it ends up in there is no numeric `as` cast.  A cast is where a spelling silently gets another value: `u64::from_str_radix
+    (..)? as i64` makes `0xFFFFFFFFFFFFFFFF` the i64 -1 (and `0x8000000000000000 > 1` false) instead of a literal that does not fit.
+    Forward data-flow over the MIR of the literal parser and its private helpers: the result of a cast never reaches a
+    `Literal::Integer` / `Literal::Float` aggregate."""
+    r = RuleResult("C09.P15", "number literals: the parsed value reaches the AST without a numeric cast (no reinterpretation of the digits' value)", floor=3)
+    sb = None
+    for p_ in F.paths():
+        if p_.endswith("::simple_literal") and "parser::expr" in p_ and "{closure" not in p_:
+            sb = F.body(p_)
+    if sb is None or not sb.hir:
+        r.missing("parser::expr simple_literal")
+        return r
+    fam = [x for x in hir.with_callees(F, sb, depth=2, same_file=True) if x.mir]
+    fam += [F.body(q) for x in list(fam) for q in F.paths() if q.startswith(x.path + "::{closure") and F.body(q) is not None and F.body(q).mir]
+    sites = 0
+    for b in fam:
+        aggs = [(bi, st) for bi, blk in enumerate(b.blocks) for st in blk["stmts"]
+                if st["k"] == "assign" and st["rv"]["k"] == "agg" and hir.last(st["rv"].get("adt") or "") == "Literal" and st["rv"].get("variant") in ("Integer", "Float")]
+        if not aggs:
+            continue
+        tainted = {}
+        for bi, blk in enumerate(b.blocks):
+            for st in blk["stmts"]:
+                if st["k"] == "assign" and st["rv"]["k"] == "cast" and st["rv"].get("ck") in ("IntToInt", "FloatToFloat", "IntToFloat", "FloatToInt") and not st.get("exp"):
+                    tainted[st["p"][0]] = (st.get("line"), "%s to %s" % (st["rv"].get("ck"), st["rv"].get("ty")))
+        changed = True
+        while changed and tainted:
+            changed = False
+            for bi, blk in enumerate(b.blocks):
+                for st in blk["stmts"]:
+                    if st["k"] == "assign" and st["p"][0] not in tainted:
+                        hit = [l for l in mir.rv_locals(st["rv"]) if l in tainted]
+                        if hit:
+                            tainted[st["p"][0]] = tainted[hit[0]]
+                            changed = True
+                t = blk["term"]
+                if t["k"] == "call" and t.get("dest") and t["dest"][0] not in tainted:
+                    hit = [a[1][0] for a in t["args"] if mir.is_place_op(a) and a[1][0] in tainted]
+                    if hit:
+                        tainted[t["dest"][0]] = tainted[hit[0]]
+                        changed = True
+        for bi, st in aggs:
+            sites += 1
+            ops = [o[1][0] for o in st["rv"].get("ops") or [] if mir.is_place_op(o)]
+            hit = [tainted[l] for l in ops[:1] if l in tainted]
+            r.inst("%s: Literal::%s line-independent #%d" % (hir.last(b.path), st["rv"]["variant"], sites), {"fn": b.path, "line": st.get("line"), "value_passed_through_cast": bool(hit)})
+            if hit:
+                r.bad(b.path, "Literal::%s value passes through a cast" % st["rv"]["variant"], relfile(b.file), hit[0][0] or st.get("line") or b.line,
+                      "the value of a Literal::%s passes through an `as` cast (%s) between the conversion of the digits and the literal: spellings whose number does not fit the "
+                      "type the parser reads them into are given another value instead of being refused (`0xFFFFFFFFFFFFFFFF` as an i64 is -1)" % (st["rv"]["variant"], hit[0][1]))
+    if sites == 0:
+        r.missing("the construction of Literal::Integer / Literal::Float in the literal parser")
+    return r
+
+
 def rules(ctx):
     F = ctx["F"]
-    return [rule_p1(F), rule_p2(F), rule_p3(F), rule_p4(F), rule_p5(F), rule_p6(F), rule_p7(F), rule_p8(F), rule_p9(F), rule_p10(F), rule_p11(F), rule_p12(F), rule_p13(F), rule_p14(F)]
+    return [rule_p1(F), rule_p2(F), rule_p3(F), rule_p4(F), rule_p5(F), rule_p6(F), rule_p7(F), rule_p8(F), rule_p9(F), rule_p10(F), rule_p11(F), rule_p12(F), rule_p13(F), rule_p14(F), rule_p15(F)]
 
 
 def canary(C):
